@@ -35,7 +35,7 @@ class AbstractTlvBase(ABC):
 
     def check_type(self, tlv_type: TlvType):
         if self.tlv_type != tlv_type:
-            raise TlvTypeMissmatch(found=tlv_type, expected=self.tlv_type)
+            raise TlvTypeMissmatch(found=self.tlv_type, expected=tlv_type)
 
 
 TlvList = List[AbstractTlvBase]
